@@ -10,6 +10,25 @@ theorem inv_lazy_irrel {cfg : Cfg} {s : State} (h : Inv cfg s) (rs : List (ResId
     Inv cfg { s with results := rs, iters := is } :=
   ⟨h.confs, h.pals, h.live, h.cache, h.nc, h.subs, h.enums, h.cur, h.subcur, h.glob, h.gp⟩
 
+theorem fillOne_enumKeys (s : State) (p : Addr) (t : Tag) :
+    ∀ e ec, s.enums.lookup e = some ec → ∃ ec', (fillOne s p t).enums.lookup e = some ec' := by
+  intro e ec h
+  unfold fillOne
+  split
+  · rename_i e0 v c i
+    split
+    · rename_i a ec0 _ hen
+      split
+      · simp only []
+        by_cases he : e = e0
+        · subst he; exact ⟨_, lookup_cons_eq _ _ _⟩
+        · rw [lookup_cons_ne _ _ he, lookup_filter_key (fun x => x ≠ e0)]
+          simp only [ne_eq, he, not_false_eq_true, decide_true, if_true]
+          exact ⟨ec, h⟩
+      · exact ⟨ec, h⟩
+    · exact ⟨ec, h⟩
+  · exact ⟨ec, h⟩
+
 theorem fill_frame (p : Addr) : ∀ (ts : List Tag) (s : State), Frame s (ts.foldl (fun st t => fillOne st p t) s) := by
   intro ts
   induction ts with
@@ -18,7 +37,7 @@ theorem fill_frame (p : Addr) : ∀ (ts : List Tag) (s : State), Frame s (ts.fol
     intro s
     obtain ⟨e1, e2, e3⟩ := fillOne_fields s p t
     have f1 : Frame s (fillOne s p t) := by
-      refine ⟨fun a q h => by rw [e2]; exact h, ?_, fun k b h => by rw [e3]; exact h⟩
+      refine ⟨fun a q h => by rw [e2]; exact h, ?_, fun k b h => by rw [e3]; exact h, fillOne_enumKeys s p t⟩
       intro k c h
       exact ⟨c, by rw [e1]; exact h, rfl, rfl, Nat.le_refl _, fun _ => ⟨rfl, fun _ _ hh => hh⟩⟩
     exact f1.trans (ih _)
@@ -117,6 +136,568 @@ theorem nextIter_inv {cfg : Cfg} (hcfg : cfgOk cfg = true) {alloc : Alloc} (hal 
       cases h
       exact inv_lazy_irrel (stepLines_spec hcfg hal _ _ _ s _ _ hinv h1).1 _ _
 
+/-! ### a colour read now is read again later -/
+
+theorem subAddr_mono {s1 s2 : State} (hfr : Frame s1 s2) {p : Addr} {c : ClassId} {a : Addr}
+    (h : subAddr s1 p c = .ok a) : subAddr s2 p c = .ok a := by
+  unfold subAddr at h ⊢
+  split at h
+  · rename_i b hb; cases h; rw [hfr.subs _ _ hb]
+  · cases h
+
+theorem getPal_mono {s1 s2 : State} (hfr : Frame s1 s2) {a : Addr} {pa : Pal}
+    (h : getPal s1 a = .ok pa) : getPal s2 a = .ok pa := by
+  unfold getPal at h ⊢
+  split at h
+  · rename_i q hq; cases h; rw [hfr.heap _ _ hq]
+  · cases h
+
+theorem getPal_some {s : State} {a : Addr} {pa : Pal} (h : getPal s a = .ok pa) : s.heap.lookup a = some pa := by
+  unfold getPal at h
+  split at h
+  · rename_i q hq; cases h; exact hq
+  · cases h
+
+/-- the colour of a tag does not change while the state only grows (palettes are never overwritten, a memoised
+sub-palette stays, a cached cell holds the colours of its key palette) -/
+theorem tagColor_mono {cfg : Cfg} (hko : cfg.keyByObj = true) {s1 s2 : State} (hi1 : Inv cfg s1) (hi2 : Inv cfg s2)
+    (hfr : Frame s1 s2) (p : Addr) (top : ClassId) (t : Tag) {col : Color}
+    (h : tagColor s1 p top t = .ok col) : tagColor s2 p top t = .ok col := by
+  cases t with
+  | plain => simpa [tagColor] using h
+  | pal c i =>
+    simp only [tagColor, bind, Except.bind] at h ⊢
+    by_cases hcp : c = top
+    · simp only [hcp, if_true] at h ⊢
+      cases hg : getPal s1 p with
+      | error e => simp [hg] at h
+      | ok pa => simp only [hg] at h; rw [getPal_mono hfr hg]; exact h
+    · simp only [hcp, if_false] at h ⊢
+      cases ha : subAddr s1 p c with
+      | error e => simp [ha] at h
+      | ok a =>
+        simp only [ha] at h
+        rw [subAddr_mono hfr ha]
+        simp only []
+        cases hg : getPal s1 a with
+        | error e => simp [hg] at h
+        | ok pa => simp only [hg] at h; rw [getPal_mono hfr hg]; exact h
+  | enum e v c i =>
+    simp only [tagColor, bind, Except.bind] at h ⊢
+    cases ha : subAddr s1 p c with
+    | error er => simp [ha] at h
+    | ok a =>
+      simp only [ha] at h
+      rw [subAddr_mono hfr ha]
+      simp only []
+      -- in both states the result is `nth q.colors i` for the palette `q` at address `a`
+      have key1 : ∃ q, s1.heap.lookup a = some q ∧ nth q.colors i = .ok col := by
+        split at h
+        · cases h
+        · rename_i ec hen
+          split at h
+          · rename_i cols hhit
+            obtain ⟨q, hq, hc⟩ := hi1.enums hko e ec a v cols hen hhit
+            exact ⟨q, hq, by rw [← hc]; exact h⟩
+          · cases hg : getPal s1 a with
+            | error er => simp [hg] at h
+            | ok pa => simp only [hg] at h; exact ⟨pa, getPal_some hg, h⟩
+      obtain ⟨q, hq, hn⟩ := key1
+      have hq2 := hfr.heap a q hq
+      have hen2 : ∃ ec2, s2.enums.lookup e = some ec2 := by
+        cases hen : s1.enums.lookup e with
+        | none => simp [hen] at h
+        | some ec => exact hfr.enumKeys e ec hen
+      obtain ⟨ec2, hen2⟩ := hen2
+      rw [hen2]
+      simp only []
+      cases hhit : ec2.lookup (a, v) with
+      | some cols2 =>
+        simp only []
+        obtain ⟨q', hq', hc'⟩ := hi2.enums hko e ec2 a v cols2 hen2 hhit
+        rw [hq2] at hq'; cases hq'
+        rw [hc']; exact hn
+      | none =>
+        simp only [getPal, hq2]
+        exact hn
+
+theorem colorChunks_mono {cfg : Cfg} (hko : cfg.keyByObj = true) {s1 s2 : State} (hi1 : Inv cfg s1) (hi2 : Inv cfg s2)
+    (hfr : Frame s1 s2) (p : Addr) (top : ClassId) :
+    ∀ (chs : List SChunk) (cs : List Chunk), colorChunks s1 p top chs = .ok cs → colorChunks s2 p top chs = .ok cs := by
+  intro chs
+  induction chs with
+  | nil => intro cs h; simpa [colorChunks] using h
+  | cons ch rest ih =>
+    intro cs h
+    simp only [colorChunks, bind, Except.bind] at h ⊢
+    cases h1 : tagColor s1 p top ch.tag with
+    | error e => simp [h1] at h
+    | ok col =>
+      simp only [h1] at h
+      rw [tagColor_mono hko hi1 hi2 hfr p top ch.tag h1]
+      simp only []
+      cases h2 : colorChunks s1 p top rest with
+      | error e => simp [h2] at h
+      | ok cs' =>
+        simp only [h2] at h
+        rw [ih cs' h2]
+        exact h
+
+/-- the lines an iterator generates, judged in any later state `F` -/
+theorem stepLines_pure {cfg : Cfg} (hcfg : cfgOk cfg = true) (hko : cfg.keyByObj = true) {alloc : Alloc}
+    (hal : ValidAlloc alloc) (p : Addr) (top : ClassId) (f : Tag → Color) {F : State} (hiF : Inv cfg F) :
+    ∀ (ls : List LLine) (s s' : State) (outs : List (List Chunk)), Inv cfg s →
+      stepLines cfg alloc p top ls s = .ok (s', outs) → Frame s' F →
+      (∀ l ∈ ls, ∀ ch ∈ l.line.chunks, ∀ col, tagColor F p top ch.tag = .ok col → col = f ch.tag) →
+      outs = ls.map fun l => paintLine f l.line := by
+  intro ls
+  induction ls with
+  | nil => intro s s' outs _ h _ _; simp [stepLines] at h; rw [h.2]; rfl
+  | cons l rest ih =>
+    intro s s' outs hinv h hfrF hcol
+    simp only [stepLines, bind, Except.bind] at h
+    cases h1 : stepLine cfg alloc p top l s with
+    | error e => simp [h1] at h
+    | ok r1 =>
+      obtain ⟨s1, out⟩ := r1
+      simp only [h1] at h
+      obtain ⟨hinv1, _⟩ := stepLine_spec hcfg hal hinv h1
+      cases h2 : stepLines cfg alloc p top rest s1 with
+      | error e => simp [h2] at h
+      | ok r2 =>
+        obtain ⟨s2, outs2⟩ := r2
+        simp only [h2] at h
+        cases h
+        obtain ⟨_, hfr12⟩ := stepLines_spec hcfg hal p top rest s1 _ _ hinv1 h2
+        have e2 := ih s1 _ _ hinv1 h2 hfrF (fun x hx => hcol x (by simp [hx]))
+        -- the line itself
+        unfold stepLine at h1
+        simp only [bind, Except.bind] at h1
+        cases g1 : getSubs cfg alloc p l.reqs s with
+        | error e => simp [g1] at h1
+        | ok sa =>
+          simp only [g1] at h1
+          obtain ⟨hinva, _⟩ := getSubs_spec hcfg hal p l.reqs s sa hinv g1
+          cases g2 : colorChunks sa p top l.line.chunks with
+          | error e => simp [g2] at h1
+          | ok cs =>
+            simp only [g2] at h1
+            cases h1
+            have hfrA : Frame sa F := ((fill_frame p _ sa).trans hfr12).trans hfrF
+            have g2F := colorChunks_mono hko hinva hiF hfrA p top l.line.chunks cs g2
+            have ecs := colorChunks_eq F p top f l.line.chunks cs (hcol l (by simp)) g2F
+            simp only [List.map_cons, e2, paintLine]
+            subst ecs
+            cases l.line.kind <;> rfl
+
+/-! ### what a lazy result holds stays alive -/
+
+/-- the palette object a result / an iterator was given: still there, of the class and kind asked for -/
+def HolderOk (s : State) (p : Addr) (conf : ConfId) (top : ClassId) (nc : Bool) : Prop :=
+  ∃ pp, s.heap.lookup p = some pp ∧ pp.cls = top ∧ pp.noColor = nc ∧ (nc = false → pp.conf = conf)
+
+structure ResOk (s : State) : Prop where
+  res : ∀ r x, s.results.lookup r = some x → HolderOk s x.p x.conf x.top x.nc
+  its : ∀ i x, s.iters.lookup i = some x → HolderOk s x.p x.conf x.top x.nc
+
+theorem holder_mono {s s' : State} (h : ∀ a q, s.heap.lookup a = some q → s'.heap.lookup a = some q)
+    {p : Addr} {conf : ConfId} {top : ClassId} {nc : Bool} (ho : HolderOk s p conf top nc) : HolderOk s' p conf top nc := by
+  obtain ⟨pp, h1, h2⟩ := ho
+  exact ⟨pp, h _ _ h1, h2⟩
+
+theorem resOk_same {s s' : State} (ho : ResOk s) (h : ∀ a q, s.heap.lookup a = some q → s'.heap.lookup a = some q)
+    (hr : s'.results = s.results) (hi : s'.iters = s.iters) : ResOk s' :=
+  ⟨fun r x hx => holder_mono h (ho.res r x (by rw [← hr]; exact hx)),
+   fun i x hx => holder_mono h (ho.its i x (by rw [← hi]; exact hx))⟩
+
+theorem render_frame {cfg : Cfg} (hcfg : cfgOk cfg = true) {alloc : Alloc} (hal : ValidAlloc alloc) {k : ConfId}
+    {nc : Bool} {sh : Shape} {s s' : State} {out : List (List Chunk)} (hinv : Inv cfg s)
+    (h : render cfg alloc k nc sh s = .ok (s', out)) : Frame s s' := by
+  unfold render at h
+  simp only [bind, Except.bind] at h
+  cases h1 : mkPalette cfg alloc sh.top k nc s with
+  | error e => simp [h1] at h
+  | ok r =>
+    obtain ⟨s1, p⟩ := r
+    simp only [h1] at h
+    obtain ⟨hinv1, hfr1, _, _⟩ := mkPalette_spec hcfg hal hinv h1
+    cases h2 : getSubs cfg alloc p sh.subs s1 with
+    | error e => simp [h2] at h
+    | ok s2 =>
+      simp only [h2] at h
+      obtain ⟨_, hfr2⟩ := getSubs_spec hcfg hal p sh.subs s1 s2 hinv1 h2
+      cases h3 : colorLines s2 p sh.top sh.lines with
+      | error e => simp [h3] at h
+      | ok lines =>
+        simp only [h3] at h
+        cases h
+        exact (hfr1.trans hfr2).trans (fill_frame p _ s2)
+
+theorem lazy_fields_of_frame_ops (cfg : Cfg) (s : State) :
+    (∀ k old new, (setConf cfg s k old new).results = s.results ∧ (setConf cfg s k old new).iters = s.iters) ∧
+    (∀ a p, (allocPal s a p).results = s.results ∧ (allocPal s a p).iters = s.iters) ∧
+    (∀ k cls a, (cachePal s k cls a).results = s.results ∧ (cachePal s k cls a).iters = s.iters) ∧
+    (∀ cls a, (cacheNc s cls a).results = s.results ∧ (cacheNc s cls a).iters = s.iters) ∧
+    (∀ p c b, (memoSub s p c b).results = s.results ∧ (memoSub s p c b).iters = s.iters) ∧
+    (∀ p t, (fillOne s p t).results = s.results ∧ (fillOne s p t).iters = s.iters) := by
+  refine ⟨?_, ?_, ?_, ?_, ?_, ?_⟩
+  · intro k old new
+    unfold setConf syncGp putConf
+    simp only []
+    split
+    · split <;> simp
+    · simp
+  · intro a p; simp [allocPal]
+  · intro k cls a
+    unfold cachePal putConf
+    split <;> simp
+  · intro cls a; simp [cacheNc]
+  · intro p c b; simp [memoSub]
+  · intro p t
+    unfold fillOne
+    split
+    · split
+      · split <;> simp
+      · simp
+    · simp
+
+theorem mkPalette_lazy {cfg : Cfg} {alloc : Alloc} {cls : ClassId} {k : ConfId} {nc : Bool} {s s' : State} {a : Addr}
+    (h : mkPalette cfg alloc cls k nc s = .ok (s', a)) : s'.results = s.results ∧ s'.iters = s.iters := by
+  have L := fun t => lazy_fields_of_frame_ops cfg t
+  unfold mkPalette at h
+  simp only [bind, Except.bind, getClass, getConf] at h
+  cases hci : cfg.classes[cls]? with
+  | none => simp [hci] at h
+  | some ci =>
+  cases hk : s.confs.lookup k with
+  | none => simp [hci, hk] at h
+  | some c =>
+  simp only [hci, hk] at h
+  cases nc with
+  | true =>
+    simp only [if_true] at h
+    cases hr : registerCls cfg cls c with
+    | error e => simp [hr] at h
+    | ok c' =>
+      simp only [hr] at h
+      split at h
+      · cases h; exact (L s).1 k c c'
+      · cases h
+        have e1 := (L s).1 k c c'
+        have e2 := (L (setConf cfg s k c c')).2.1 (alloc ((setConf cfg s k c c').heap.map Prod.fst)) ⟨cls, k, true, ci.localSyntax.map fun _ => []⟩
+        have e3 := (L (allocPal (setConf cfg s k c c') (alloc ((setConf cfg s k c c').heap.map Prod.fst)) ⟨cls, k, true, ci.localSyntax.map fun _ => []⟩)).2.2.2.1 cls (alloc ((setConf cfg s k c c').heap.map Prod.fst))
+        exact ⟨e3.1.trans (e2.1.trans e1.1), e3.2.trans (e2.2.trans e1.2)⟩
+  | false =>
+    simp only [Bool.false_eq_true, if_false] at h
+    split at h
+    · cases h; exact ⟨rfl, rfl⟩
+    · cases hr : registerCls cfg cls c with
+      | error e => simp [hr] at h
+      | ok c' =>
+        simp only [hr] at h
+        cases h
+        have e1 := (L s).1 k c c'
+        have e2 := (L (setConf cfg s k c c')).2.1 (alloc ((setConf cfg s k c c').heap.map Prod.fst)) ⟨cls, k, false, snapshot cfg ci c'⟩
+        have e3 := (L (allocPal (setConf cfg s k c c') (alloc ((setConf cfg s k c c').heap.map Prod.fst)) ⟨cls, k, false, snapshot cfg ci c'⟩)).2.2.1 k cls (alloc ((setConf cfg s k c c').heap.map Prod.fst))
+        exact ⟨e3.1.trans (e2.1.trans e1.1), e3.2.trans (e2.2.trans e1.2)⟩
+
+theorem getSubs_lazy {cfg : Cfg} {alloc : Alloc} (p : Addr) : ∀ (cs : List ClassId) (s s' : State),
+    getSubs cfg alloc p cs s = .ok s' → s'.results = s.results ∧ s'.iters = s.iters := by
+  intro cs
+  induction cs with
+  | nil => intro s s' h; simp [getSubs] at h; subst h; exact ⟨rfl, rfl⟩
+  | cons c cs ih =>
+    intro s s' h
+    simp only [getSubs, bind, Except.bind] at h
+    cases hg : getSub cfg alloc p c s with
+    | error e => simp [hg] at h
+    | ok r =>
+      obtain ⟨s1, b⟩ := r
+      simp only [hg] at h
+      have e1 : s1.results = s.results ∧ s1.iters = s.iters := by
+        unfold getSub at hg
+        simp only [bind, Except.bind, getPal, getClass] at hg
+        cases hpa : s.heap.lookup p with
+        | none => simp [hpa] at hg
+        | some pp =>
+        simp only [hpa] at hg
+        cases hci : cfg.classes[pp.cls]? with
+        | none => simp [hci] at hg
+        | some ci =>
+        simp only [hci] at hg
+        split at hg
+        · cases hg
+        · split at hg
+          · cases hg; exact ⟨rfl, rfl⟩
+          · cases hmk : mkPalette cfg alloc c pp.conf pp.noColor s with
+            | error e => simp [hmk] at hg
+            | ok r2 =>
+              obtain ⟨s2, b2⟩ := r2
+              simp only [hmk] at hg
+              cases hg
+              have := mkPalette_lazy hmk
+              exact ⟨by simp [memoSub, this.1], by simp [memoSub, this.2]⟩
+      have e2 := ih s1 s' h
+      exact ⟨e2.1.trans e1.1, e2.2.trans e1.2⟩
+
+theorem fill_lazy (p : Addr) : ∀ (ts : List Tag) (s : State),
+    (ts.foldl (fun st t => fillOne st p t) s).results = s.results ∧
+    (ts.foldl (fun st t => fillOne st p t) s).iters = s.iters := by
+  intro ts
+  induction ts with
+  | nil => intro s; exact ⟨rfl, rfl⟩
+  | cons t ts ih =>
+    intro s
+    have e1 := (lazy_fields_of_frame_ops (cfg := ⟨[], [], [], 0, true⟩) s).2.2.2.2.2 p t
+    have e2 := ih (fillOne s p t)
+    exact ⟨e2.1.trans e1.1, e2.2.trans e1.2⟩
+
+theorem stepLines_lazy {cfg : Cfg} {alloc : Alloc} (p : Addr) (top : ClassId) : ∀ (ls : List LLine) (s s' : State)
+    (outs : List (List Chunk)), stepLines cfg alloc p top ls s = .ok (s', outs) →
+      s'.results = s.results ∧ s'.iters = s.iters := by
+  intro ls
+  induction ls with
+  | nil => intro s s' outs h; simp [stepLines] at h; rw [← h.1]; exact ⟨rfl, rfl⟩
+  | cons l rest ih =>
+    intro s s' outs h
+    simp only [stepLines, bind, Except.bind] at h
+    cases h1 : stepLine cfg alloc p top l s with
+    | error e => simp [h1] at h
+    | ok r1 =>
+      obtain ⟨s1, out⟩ := r1
+      simp only [h1] at h
+      cases h2 : stepLines cfg alloc p top rest s1 with
+      | error e => simp [h2] at h
+      | ok r2 =>
+        obtain ⟨s2, outs2⟩ := r2
+        simp only [h2] at h
+        cases h
+        have e2 := ih s1 _ _ h2
+        have e1 : s1.results = s.results ∧ s1.iters = s.iters := by
+          unfold stepLine at h1
+          simp only [bind, Except.bind] at h1
+          cases g1 : getSubs cfg alloc p l.reqs s with
+          | error e => simp [g1] at h1
+          | ok sa =>
+            simp only [g1] at h1
+            cases g2 : colorChunks sa p top l.line.chunks with
+            | error e => simp [g2] at h1
+            | ok cs =>
+              simp only [g2] at h1
+              cases h1
+              have a1 := getSubs_lazy p l.reqs s sa g1
+              have a2 := fill_lazy p (l.line.chunks.map (·.tag)) sa
+              exact ⟨a2.1.trans a1.1, a2.2.trans a1.2⟩
+        exact ⟨e2.1.trans e1.1, e2.2.trans e1.2⟩
+
+theorem step_resOk {cfg : Cfg} (hcfg : cfgOk cfg = true) {alloc : Alloc} (hal : ValidAlloc alloc) {s : State}
+    (hinv : Inv cfg s) (ho : ResOk s) (op : Op) : ResOk (step cfg alloc s op) := by
+  have idm : ∀ a q, s.heap.lookup a = some q → s.heap.lookup a = some q := fun _ _ h => h
+  cases op with
+  | newConf k nc items =>
+    simp only [step]
+    split
+    · rename_i s' h
+      unfold newConf at h
+      simp only [bind, Except.bind] at h
+      split at h
+      · cases h
+      · cases hm : mkConf cfg nc items with
+        | error e => simp [hm] at h
+        | ok c => simp only [hm] at h; cases h; exact resOk_same ho idm rfl rfl
+    · exact ho
+  | dropConf k => exact resOk_same ho idm rfl rfl
+  | gc kp kc =>
+    simp only [step, gc]
+    split
+    · rename_i hok
+      simp only [gcOk, Bool.and_eq_true, List.all_eq_true] at hok
+      obtain ⟨⟨_, hres⟩, hits⟩ := hok
+      have keep : ∀ a q, kp.contains a = true → s.heap.lookup a = some q →
+          List.lookup a (s.heap.filter fun e => kp.contains e.1) = some q := by
+        intro a q h1 h2
+        rw [lookup_filter_key (fun x => kp.contains x) a s.heap, h1]; exact h2
+      refine ⟨?_, ?_⟩
+      · intro r x hx
+        obtain ⟨pp, h1, h2⟩ := ho.res r x hx
+        exact ⟨pp, keep _ _ (hres (r, x) (lookup_mem hx)) h1, h2⟩
+      · intro i x hx
+        obtain ⟨pp, h1, h2⟩ := ho.its i x hx
+        exact ⟨pp, keep _ _ (hits (i, x) (lookup_mem hx)) h1, h2⟩
+    · exact ho
+  | setGlobal k =>
+    simp only [step]
+    split
+    · rename_i s' h
+      unfold setGlobal at h
+      simp only [bind, Except.bind] at h
+      cases hg : getConf s k with
+      | error e => simp [hg] at h
+      | ok c =>
+        simp only [hg] at h
+        cases h
+        unfold syncGp
+        split
+        · exact resOk_same ho idm rfl rfl
+        · exact resOk_same ho idm rfl rfl
+    · exact ho
+  | newEnum e =>
+    simp only [step]
+    split
+    · rename_i s' h
+      unfold newEnum at h
+      split at h
+      · cases h
+      · cases h; exact resOk_same ho idm rfl rfl
+    · exact ho
+  | dropEnum e => exact resOk_same ho idm rfl rfl
+  | render k nc sh =>
+    simp only [step]
+    split
+    · rename_i s' out h
+      have hfr := render_frame hcfg hal hinv h
+      have hl : s'.results = s.results ∧ s'.iters = s.iters := by
+        unfold render at h
+        simp only [bind, Except.bind] at h
+        cases h1 : mkPalette cfg alloc sh.top k nc s with
+        | error e => simp [h1] at h
+        | ok r =>
+          obtain ⟨s1, p⟩ := r
+          simp only [h1] at h
+          cases h2 : getSubs cfg alloc p sh.subs s1 with
+          | error e => simp [h2] at h
+          | ok s2 =>
+            simp only [h2] at h
+            cases h3 : colorLines s2 p sh.top sh.lines with
+            | error e => simp [h3] at h
+            | ok lines =>
+              simp only [h3] at h
+              cases h
+              have a1 := mkPalette_lazy h1
+              have a2 := getSubs_lazy p sh.subs s1 s2 h2
+              have a3 := fill_lazy p sh.tags s2
+              exact ⟨a3.1.trans (a2.1.trans a1.1), a3.2.trans (a2.2.trans a1.2)⟩
+      exact resOk_same ho hfr.heap hl.1 hl.2
+    · exact ho
+  | mkRes r k nc top lines =>
+    simp only [step]
+    split
+    · rename_i s' h
+      unfold mkRes at h
+      simp only [bind, Except.bind] at h
+      cases h1 : mkPalette cfg alloc top k nc s with
+      | error e => simp [h1] at h
+      | ok r1 =>
+        obtain ⟨s1, p⟩ := r1
+        simp only [h1] at h
+        cases h
+        obtain ⟨_, hfr, ⟨pp, hp1, hp2, hp3, hp4⟩, _⟩ := mkPalette_spec hcfg hal hinv h1
+        have hl := mkPalette_lazy h1
+        refine ⟨?_, ?_⟩
+        · intro r' x hx
+          simp only [] at hx
+          by_cases e : r' = r
+          · subst e
+            rw [lookup_cons_eq] at hx; cases hx
+            exact ⟨pp, hp1, hp2, hp3, hp4⟩
+          · rw [lookup_cons_ne _ _ e, lookup_filter_key (fun y => y ≠ r)] at hx
+            simp only [ne_eq, e, not_false_eq_true, decide_true, if_true] at hx
+            rw [hl.1] at hx
+            exact holder_mono hfr.heap (ho.res r' x hx)
+        · intro i x hx
+          simp only [] at hx
+          rw [hl.2] at hx
+          exact holder_mono hfr.heap (ho.its i x hx)
+    · exact ho
+  | strRes r =>
+    simp only [step]
+    split
+    · rename_i s' w h
+      unfold strRes at h
+      split at h
+      · cases h
+      · rename_i res hres
+        split at h
+        · cases h; exact ho
+        · simp only [bind, Except.bind] at h
+          cases h1 : stepLines cfg alloc res.p res.top res.lines s with
+          | error e => simp [h1] at h
+          | ok r1 =>
+            obtain ⟨s1, ls⟩ := r1
+            simp only [h1] at h
+            cases h
+            obtain ⟨_, hfr⟩ := stepLines_spec hcfg hal _ _ _ s _ _ hinv h1
+            have hl := stepLines_lazy _ _ _ s _ _ h1
+            refine ⟨?_, ?_⟩
+            · intro r' x hx
+              simp only [] at hx
+              by_cases e : r' = r
+              · subst e
+                rw [lookup_cons_eq] at hx; cases hx
+                exact holder_mono hfr.heap (ho.res r' res hres)
+              · rw [lookup_cons_ne _ _ e, lookup_filter_key (fun y => y ≠ r)] at hx
+                simp only [ne_eq, e, not_false_eq_true, decide_true, if_true] at hx
+                rw [hl.1] at hx
+                exact holder_mono hfr.heap (ho.res r' x hx)
+            · intro i x hx
+              simp only [] at hx
+              rw [hl.2] at hx
+              exact holder_mono hfr.heap (ho.its i x hx)
+    · exact ho
+  | mkIter i r =>
+    simp only [step]
+    split
+    · rename_i s' h
+      unfold mkIter at h
+      split at h
+      · cases h
+      · rename_i res hres
+        cases h
+        refine ⟨ho.res, ?_⟩
+        intro i' x hx
+        simp only [] at hx
+        by_cases e : i' = i
+        · subst e
+          rw [lookup_cons_eq] at hx; cases hx
+          exact ho.res r res hres
+        · rw [lookup_cons_ne _ _ e, lookup_filter_key (fun y => y ≠ i)] at hx
+          simp only [ne_eq, e, not_false_eq_true, decide_true, if_true] at hx
+          exact ho.its i' x hx
+    · exact ho
+  | nextIter i n =>
+    simp only [step]
+    split
+    · rename_i s' outs h
+      unfold nextIter at h
+      split at h
+      · cases h
+      · rename_i it hit
+        simp only [bind, Except.bind] at h
+        cases h1 : stepLines cfg alloc it.p it.top (it.rest.take n) s with
+        | error e => simp [h1] at h
+        | ok r1 =>
+          obtain ⟨s1, ls⟩ := r1
+          simp only [h1] at h
+          cases h
+          obtain ⟨_, hfr⟩ := stepLines_spec hcfg hal _ _ _ s _ _ hinv h1
+          have hl := stepLines_lazy _ _ _ s _ _ h1
+          refine ⟨?_, ?_⟩
+          · intro r' x hx
+            simp only [] at hx
+            rw [hl.1] at hx
+            exact holder_mono hfr.heap (ho.res r' x hx)
+          · intro i' x hx
+            simp only [] at hx
+            by_cases e : i' = i
+            · subst e
+              rw [lookup_cons_eq] at hx; cases hx
+              exact holder_mono hfr.heap (ho.its i' it hit)
+            · rw [lookup_cons_ne _ _ e, lookup_filter_key (fun y => y ≠ i)] at hx
+              simp only [ne_eq, e, not_false_eq_true, decide_true, if_true] at hx
+              rw [hl.2] at hx
+              exact holder_mono hfr.heap (ho.its i' x hx)
+    · exact ho
+
 /-! ### histories -/
 
 theorem step_inv {cfg : Cfg} (hcfg : cfgOk cfg = true) (hko : cfg.keyByObj = true) {alloc : Alloc}
@@ -172,5 +753,20 @@ theorem run_inv {cfg : Cfg} (hcfg : cfgOk cfg = true) (hko : cfg.keyByObj = true
   induction ops with
   | nil => intro s h; exact h
   | cons op ops ih => intro s h; exact ih _ (step_inv hcfg hko hal h op)
+
+theorem run_inv_resOk {cfg : Cfg} (hcfg : cfgOk cfg = true) (hko : cfg.keyByObj = true) {alloc : Alloc}
+    (hal : ValidAlloc alloc) : ∀ (ops : List Op) (s : State), Inv cfg s → ResOk s →
+      Inv cfg (run cfg alloc s ops) ∧ ResOk (run cfg alloc s ops) := by
+  intro ops
+  induction ops with
+  | nil => intro s h1 h2; exact ⟨h1, h2⟩
+  | cons op ops ih => intro s h1 h2; exact ih _ (step_inv hcfg hko hal h1 op) (step_resOk hcfg hal h1 h2 op)
+
+theorem initState_resOk (cfg : Cfg) : ResOk (initState cfg) := by
+  unfold initState
+  split
+  · unfold syncGp
+    split <;> exact ⟨fun r x h => by simp [emptyState] at h, fun i x h => by simp [emptyState] at h⟩
+  · exact ⟨fun r x h => by simp [emptyState] at h, fun i x h => by simp [emptyState] at h⟩
 
 end PaletteState
